@@ -5,6 +5,7 @@
    C07 table                   the generated class table (name, metaclass, #fields)
 
    step   ::= (obs MINSTAMP)   -- emit an observation here
+            | (mkkw SLOT CLS CYC "mcls" (<positional argtok>*) (("field" (<argtok>*))*) NID)
             | (alloc SLOT ID) | (mk SLOT CLS CYC "mcls" (<argtok>*) NID) | (drop SLOT)
             | (reclaim ID) | (sweep) | (gc) | (rebuild SRC DST ((OLD NEW)*))
    argtok ::= (i INT) | (b BOOL) | (f P Q) | nz | (nan OID) | (s "str") | none | (o ID) | (a ID)
@@ -53,6 +54,8 @@ inductive Req where
   | plain (st : Step)
   | mk (slot cls : Nat) (cyc : Bool) (mcls : String) (args : List ArgTok) (nid : Nat)
   | obs (minStamp : Nat)
+  | mkkw (slot cls : Nat) (cyc : Bool) (mcls : String) (pos : List ArgTok)
+      (kws : List (String × List ArgTok)) (nid : Nat)
 
 def parseStep : Sexp → Option Req
   | .list [.atom "alloc", a, b] => do some (.plain (.alloc (← a.asNat?) (← b.asNat?)))
@@ -63,6 +66,11 @@ def parseStep : Sexp → Option Req
   | .list [.atom "obs", a] => do some (.obs (← a.asNat?))
   | .list [.atom "rebuild", a, b, m] => do
       some (.plain (.rebuild (← a.asNat?) (← b.asNat?) (← parsePairs m)))
+  | .list [.atom "mkkw", slot, cls, cyc, .str mcls, pos, .list kws, nid] => do
+      let kws ← kws.mapM fun
+        | .list [.str n, a] => do some (n, ← parseArgs a)
+        | _ => Option.none
+      some (.mkkw (← slot.asNat?) (← cls.asNat?) (← cyc.asBool?) mcls (← parseArgs pos) kws (← nid.asNat?))
   | .list [.atom "mk", slot, cls, cyc, .str mcls, args, nid] => do
       some (.mk (← slot.asNat?) (← cls.asNat?) (← cyc.asBool?) mcls (← parseArgs args) (← nid.asNat?))
   | _ => Option.none
@@ -101,8 +109,23 @@ def arityOk (cls : Nat) (groups : List (List ArgTok)) : Bool :=
   | some e => e.kind != "funsor" || groups.length == e.fields.length
   | Option.none => false
 
+def stepKw (s : St) (slot cls : Nat) (cyc : Bool) (mcls : String) (pos : List ArgTok)
+    (kws : List (String × List ArgTok)) (nid : Nat) : Except String St :=
+  match FV.Gen.C07.classes[cls]?, splitTop pos with
+  | some e, some pgroups =>
+    match kwargsToArgs e.fields pgroups kws with
+    | Option.none => .error "bad-kwargs"
+    | some groups =>
+      match normArgs mcls groups with
+      | Option.none => .error "bad-args"
+      | some gs =>
+        if !arityOk cls gs then .error "arity"
+        else (step s (.mk slot cls cyc gs.flatten nid)).mapError Err.name
+  | _, _ => .error "bad-args"
+
 def stepReq (s : St) : Req → Except String St
   | .obs _ => .ok s
+  | .mkkw slot cls cyc mcls pos kws nid => stepKw s slot cls cyc mcls pos kws nid
   | .plain st => (step s st).mapError Err.name
   | .mk slot cls cyc mcls args nid =>
     match splitTop args with
